@@ -688,6 +688,20 @@ theorem initial_contribution :
       "np.exp(1j * ((2 * dagg[0] - 1) * freq_2 * time_2 + (2 * dagg[1] - 1) * freq_1 * time_1))" := by
   decide
 
+/-- Band widths: in `correlation()` the first width `dw[0]` multiplies `√J(freq_1)` and the second
+    width `dw[1]` multiplies `√J(freq_2)`, and the kernel sum is multiplied by both, so the
+    displacement part of a correlation between two bands scales as `dw[0]·dw[1]`; `occupation()`
+    is linear in its single width: `dw·J(freq)`. -/
+theorem band_widths {K : Type} [Field K] (d0 d1 s1 s2 dw J : K) :
+    correlation_coup_1 d0 d1 s1 s2 = d0 * s1 ∧ correlation_coup_2 d0 d1 s1 s2 = d1 * s2 ∧
+    correlation_coup_1 d0 d1 s1 s2 * correlation_coup_2 d0 d1 s1 s2 = (d0 * d1) * (s1 * s2) ∧
+    correlation_coup_use = "<kernel sum> * coup_1 * coup_2" ∧
+    occupation_coup dw J = dw * J ∧
+    dw_defaults = [("correlation", "(1.0, 1.0)"), ("occupation", "1.0")] := by
+  refine ⟨rfl, rfl, ?_, rfl, ?_, by decide⟩
+  · unfold correlation_coup_1 correlation_coup_2; ring
+  · unfold occupation_coup; ring
+
 /-- these four are all the integer conversions in `TwoTimeBathCorrelations` -/
 theorem bath_int_conversions_listed :
     bath_int_conversions = ["int(np.round(final_time / dt))", "int(np.round(time_1 / dt))",
